@@ -190,6 +190,73 @@ theorem verified_step_keeps_height (md : Module) (orc : Oracle) (sm : Summary) (
   · right; left; exact a4
   · right; right; exact a4
 
+/-- flow consistency at the two branch instructions: both successors of `JUMPZ` carry `h − 1`, the target of `JUMP` carries `h` -/
+theorem verified_flow_branch (md : Module) (sm : Summary) (hm : HMap) (hv : verifyH md = .ok (sm, hm))
+    (a : Nat) (i : Instr) (st : AbsSt) (hi : md.code[a]? = some i) (hs : hm[a]? = some (some st)) :
+    (i.op = .JUMPZ → 1 ≤ st.h ∧ (∃ s1, hm[a + 1]? = some (some s1) ∧ s1.h + 1 = st.h) ∧
+        (∃ s2, hm[((a : Int) + 1 + i32 i.w0).toNat]? = some (some s2) ∧ s2.h + 1 = st.h)) ∧
+    (i.op = .JUMP → ∃ s2, hm[((a : Int) + 1 + i32 i.w0).toNat]? = some (some s2) ∧ s2.h = st.h) := by
+  obtain ⟨_, hf⟩ := verifyH_ok md sm hm hv
+  unfold flowOk at hf
+  have ha : a < md.code.size := by
+    rcases Nat.lt_or_ge a md.code.size with h | h
+    · exact h
+    · rw [Array.getElem?_eq_none (by omega)] at hi; cases hi
+  have key := (List.all_eq_true.mp hf) a (List.mem_range.mpr ha)
+  unfold flowOkAt at key
+  simp only [hi, hs] at key
+  constructor
+  · intro hop
+    have he : simpleEffect i = some (1, 0) := by simp [simpleEffect, hop, binOpOf, unOpOf, convOf, nilCmpOf, strAddOf, arrOpOf, mkArrayElem]
+    simp only [he, hop, beq_self_eq_true, if_true, Bool.and_eq_true] at key
+    obtain ⟨k1, k2⟩ := key
+    cases hn : hm[a + 1]? with
+    | none => simp [hn] at k1
+    | some o =>
+      cases o with
+      | none => simp [hn] at k1
+      | some s1 =>
+        simp [hn] at k1
+        cases ht : hm[((a : Int) + 1 + i32 i.w0).toNat]? with
+        | none => simp [ht] at k2
+        | some o2 =>
+          cases o2 with
+          | none => simp [ht] at k2
+          | some s2 =>
+            simp [ht] at k2
+            exact ⟨k1.1, ⟨s1, rfl, by omega⟩, ⟨s2, rfl, by omega⟩⟩
+  · intro hop
+    have he : simpleEffect i = none := by simp [simpleEffect, hop, binOpOf, unOpOf, convOf, nilCmpOf, strAddOf, arrOpOf, mkArrayElem]
+    simp only [he, hop, beq_self_eq_true, if_true] at key
+    cases ht : hm[((a : Int) + 1 + i32 i.w0).toNat]? with
+    | none => simp [ht] at key
+    | some o2 =>
+      cases o2 with
+      | none => simp [ht] at key
+      | some s2 =>
+        simp [ht] at key
+        exact ⟨s2, rfl, key⟩
+
+/-- the branch instructions of a verified module also run at the verified heights: after one `step` on `JUMPZ` / `JUMP` the
+machine is running at one of the successors the verifier followed, with `sp = base + h(successor)` -/
+theorem verified_branch_keeps_height (md : Module) (orc : Oracle) (sm : Summary) (hm : HMap) (hv : verifyH md = .ok (sm, hm))
+    (vm vm' : Vm) (i : Instr) (st : AbsSt) (base : Int)
+    (hi : md.code[vm.ip]? = some i) (hs : hm[vm.ip]? = some (some st)) (hop : i.op = .JUMPZ ∨ i.op = .JUMP)
+    (hrun : vm.running = 1) (hinv : vm.sp = base + (st.h : Int))
+    (hstep : (step md orc).run vm = .ok ((), vm')) :
+    vm'.fp = vm.fp ∧ vm'.pp = vm.pp ∧ vm'.stackSize = vm.stackSize ∧ vm'.running = 1 ∧
+    ∃ st', hm[vm'.ip]? = some (some st') ∧ vm'.sp = base + (st'.h : Int) := by
+  obtain ⟨fz, fj⟩ := verified_flow_branch md sm hm hv vm.ip i st hi hs
+  obtain ⟨a1, a2, a3, a4, a5⟩ := step_branch md orc vm vm' i hi hrun hop hstep
+  refine ⟨a1, a2, a3, a4, ?_⟩
+  rcases a5 with ⟨hz, hsp, hip⟩ | ⟨hjmp, hsp, hip⟩
+  · obtain ⟨h1, ⟨s1, e1, r1⟩, ⟨s2, e2, r2⟩⟩ := fz hz
+    rcases hip with hip | hip
+    · exact ⟨s1, by rw [hip]; exact e1, by omega⟩
+    · exact ⟨s2, by rw [hip]; exact e2, by omega⟩
+  · obtain ⟨s2, e2, r2⟩ := fj hjmp
+    exact ⟨s2, by rw [hip]; exact e2, by omega⟩
+
 /-- a module that verifies (`7 + 5` and HALT, one catch-all handler): the hypotheses of `verified_step_keeps_height` are met
 at address 2, where `OP_ADD_INT` runs at the recorded height 2 and leaves height 1 -/
 def tinyModule : Module := { code := #[⟨.INT, 7, 0, 0⟩, ⟨.INT, 5, 0, 0⟩, ⟨.OP_ADD_INT, 0, 0, 0⟩, ⟨.HALT, 0, 0, 0⟩, ⟨.UNHANDLED_EXCEPTION, 0, 0, 0⟩], strtab := #[], exctab := #[⟨0, 4⟩, ⟨4294967295, 0⟩], excCount := 1, codeEntry := 0, entryAddr := 0, params := [] }
